@@ -771,7 +771,7 @@ func (c *Ctx) numFinite(r *Report) {
 				continue
 			}
 			nan, inf := false, false
-			for _, a := range p.Atoms {
+			for _, a := range withFiniteFacts(p.Atoms) {
 				if a.Kind == "call" && !a.Pos && a.Subj == "math.IsNaN" && a.Val == fk {
 					nan = true
 				}
@@ -804,7 +804,7 @@ func (c *Ctx) numFinite(r *Report) {
 // finiteGuards reads off a path's atoms what they establish about the float value with key fk.
 // An ordered comparison excludes NaN only in its source polarity: not(x <= 0) holds for NaN, x > 0 does not.
 func finiteGuards(atoms []Atom, fk string) (notNaN, lower, upper bool) {
-	for _, a := range atoms {
+	for _, a := range withFiniteFacts(atoms) {
 		switch {
 		case a.Kind == "call" && !a.Pos && a.Subj == "math.IsNaN" && a.Val == fk:
 			notNaN = true
@@ -897,7 +897,7 @@ func (c *Ctx) numFiniteReducers(r *Report) {
 
 func (c *Ctx) hasFiniteNaN(atoms []Atom) bool {
 	nan, inf := false, false
-	for _, a := range atoms {
+	for _, a := range withFiniteFacts(atoms) {
 		if a.Kind == "call" && !a.Pos && a.Subj == "math.IsNaN" {
 			nan = true
 		}
@@ -2453,4 +2453,26 @@ func ruleSQLRESCAN(c *Ctx, r *Report) {
 		}
 	}
 	r.ok(rule, "calls-examined", "-", fmt.Sprintf("%d replace calls in the driver examined", n))
+}
+
+// withFiniteFacts: `math.Abs(x) <= math.MaxFloat64` says what `!math.IsNaN(x) && !math.IsInf(x, 0)` says (the
+// comparison is false for NaN and for both infinities); its failure says that x is NaN or infinite. The facts are
+// added in the vocabulary the rules read.
+func withFiniteFacts(atoms []Atom) []Atom {
+	out := atoms
+	for _, a := range atoms {
+		if a.Kind != "cmp" || !strings.HasPrefix(a.Subj, "math.Abs(") || !strings.HasSuffix(a.Subj, ")") || !strings.HasPrefix(a.Val, "17976931348623157") {
+			continue
+		}
+		x := strings.TrimSuffix(strings.TrimPrefix(a.Subj, "math.Abs("), ")")
+		switch a.Op {
+		case "<=":
+			out = append(append([]Atom(nil), out...),
+				Atom{Kind: "call", Pos: false, Subj: "math.IsNaN", Val: x, Src: a.Src, Env: a.Env},
+				Atom{Kind: "call", Pos: false, Subj: "math.IsInf", Val: x + ",0", Src: a.Src, Env: a.Env})
+		case ">":
+			out = append(append([]Atom(nil), out...), Atom{Kind: "call", Pos: true, Subj: "math.IsInf", Val: x + ",0", Src: a.Src, Env: a.Env})
+		}
+	}
+	return out
 }
